@@ -122,6 +122,11 @@ NestCases ==
                                Func("mid", <<>>, <<"bool", "int", "string">>, <<Def(<<"x", "y", "z">>, <<CallE("f3", <<>>)>>), RetS(<<Var("z"), Var("x"), Var("y")>>)>>),
                                Func("outer", <<>>, <<"string", "bool", "int">>, <<Def(<<"x", "y", "z">>, <<CallE("mid", <<>>)>>), RetS(<<Var("z"), Var("x"), Var("y")>>)>>),
                                Def(<<"p", "q", "r">>, <<CallE("outer", <<>>)>>), PrintS(<<Var("p"), Var("q"), Var("r")>>)>>),
+   CaseOf("C02/nest/forward", <<Func("f3", <<Param("n", "int")>>, <<"int", "string", "bool">>, <<RetS(<<Var("n"), StrL("two"), BoolL(TRUE)>>)>>),
+                                Func("mid", <<Param("n", "int")>>, <<"int", "string", "bool">>, <<PrintS(<<StrL("mid"), Var("n")>>), RetS(<<CallE("f3", <<Bin("+", Var("n"), NatLit(1))>>)>>)>>),
+                                Func("top", <<>>, <<"int", "string", "bool">>, <<If1(BoolL(TRUE), <<PrintS(<<StrL("top")>>)>>), RetS(<<CallE("mid", <<NatLit(5)>>)>>)>>),
+                                Def(<<"p", "q", "r">>, <<CallE("top", <<>>)>>), PrintS(<<Var("p"), Var("q"), Var("r")>>),
+                                VarDef(<<"p2">>, "int", <<>>), VarDef(<<"q2">>, "string", <<>>), VarDef(<<"r2">>, "bool", <<>>), Asg(<<"p2", "q2", "r2">>, <<CallE("mid", <<NatLit(1)>>)>>), PrintS(<<Var("p2"), Var("q2"), Var("r2")>>)>>),
    CaseOf("C02/nest/args", <<Func("add", <<Param("a", "int"), Param("b", "int")>>, <<"int">>, <<RetS(<<Bin("+", Var("a"), Var("b"))>>)>>),
                              Func("dbl", <<Param("a", "int")>>, <<"int">>, <<RetS(<<Bin("*", Var("a"), NatLit(2))>>)>>),
                              PrintS(<<CallE("add", <<CallE("dbl", <<NatLit(3)>>), CallE("dbl", <<CallE("add", <<NatLit(1), NatLit(1)>>)>>)>>)>>),
@@ -164,6 +169,30 @@ SetStr(S, i, k) == IF i > k THEN "" ELSE (IF i \in S THEN "c" ELSE "v") \o SetSt
 MultiCallCases == UNION {{CaseOf("C02/multicall/" \o kind \o "/" \o form \o "/" \o SetStr(calls, 1, k), MultiCallProg(kind, k, calls, form))
                           : calls \in (SUBSET (1..k)) \ {{}}} : kind \in Callees, k \in {2, 3}, form \in {"asg", "def"}}
 
-All == RoleCases \cup ArityCases \cup GlobalCases \cup SwapCases \cup NestCases \cup MultiCallCases
+
+\* (g) a loop in the caller is live across a call whose callee runs loops of its own: every caller loop form x callee loop form x place of the call
+\*     (body, condition, increment) x relative nesting (the callee's loop at the same depth or one deeper); whatever a back-end keeps per loop
+\*     (first-iteration flags, counters, labels) must be private to the activation
+CalleeLoop(form) ==
+  CASE form = "for3" -> <<For3(Def1("j", NatLit(0)), CmpE("<", Var("j"), NatLit(2)), Inc("j"), <<Compound("t", "+", Var("j"))>>)>>
+    [] form = "forcond" -> <<Def1("j", NatLit(0)), ForCond(CmpE("<", Var("j"), NatLit(2)), <<Inc("j"), Compound("t", "+", NatLit(10))>>)>>
+    [] form = "forinf" -> <<Def1("j", NatLit(0)), ForInf(<<Inc("j"), If1(CmpE(">", Var("j"), NatLit(2)), <<BreakS>>), Compound("t", "+", NatLit(100))>>)>>
+    [] form = "range" -> <<RangeS("j", "e", SliceLit("int", <<NatLit(5), NatLit(6)>>), <<Compound("t", "+", Var("e"))>>)>>
+    [] form = "earlyret" -> <<For3(Def1("j", NatLit(0)), CmpE("<", Var("j"), NatLit(5)), Inc("j"), <<If1(CmpE("==", Var("j"), Var("n")), <<RetS(<<Bin("+", Var("t"), Var("j"))>>)>>)>>)>>
+    [] form = "none" -> <<Compound("t", "+", NatLit(1))>>
+CalleeDefL(form, deeper) == Func("work", <<Param("n", "int")>>, <<"int">>,
+     <<Def1("t", Var("n"))>> \o (IF deeper THEN <<If1(CmpE(">=", Var("n"), NatLit(0)), CalleeLoop(form))>> ELSE CalleeLoop(form)) \o <<RetS(<<Var("t")>>)>>)
+W(e) == CallE("work", <<e>>)
+CallerLoop(form, place) ==
+  LET body == IF place = "body" THEN <<PrintS(<<Var("i"), W(Var("i"))>>)>> ELSE <<PrintS(<<Var("i")>>)>>
+      cond == IF place = "cond" THEN CmpE("<", Bin("+", Var("i"), Bin("-", W(Var("i")), W(Var("i")))), NatLit(3)) ELSE CmpE("<", Var("i"), NatLit(3))
+      post == IF place = "post" THEN Asg1("i", Bin("+", Bin("+", Var("i"), NatLit(1)), Bin("-", W(Var("i")), W(Var("i"))))) ELSE Inc("i")
+  IN CASE form = "for3" -> <<For3(Def1("i", NatLit(0)), cond, post, body)>>
+       [] form = "forcond" -> <<Def1("i", NatLit(0)), ForCond(cond, body \o <<post>>)>>
+       [] form = "range" -> <<RangeS("i", "v", SliceLit("int", <<NatLit(7), NatLit(8), NatLit(9)>>), body \o <<PrintS(<<Var("v")>>)>>)>>
+       [] form = "nested" -> <<For3(Def1("o", NatLit(0)), CmpE("<", Var("o"), NatLit(2)), Inc("o"), <<For3(Def1("i", NatLit(0)), cond, post, body), PrintS(<<StrL("o"), Var("o")>>)>>)>>
+LoopCallCases == {CaseOf("C02/loopcall/" \o cf \o "-" \o pl \o "/" \o ff \o (IF dp THEN "-deeper" ELSE ""), <<CalleeDefL(ff, dp)>> \o CallerLoop(cf, pl) \o <<L("end")>>)
+                  : cf \in {"for3", "forcond", "range", "nested"}, pl \in {"body", "cond", "post"}, ff \in {"for3", "forcond", "forinf", "range", "earlyret", "none"}, dp \in {TRUE, FALSE}}
+All == LoopCallCases \cup RoleCases \cup ArityCases \cup GlobalCases \cup SwapCases \cup NestCases \cup MultiCallCases
 ASSUME ndJsonSerialize("fam.ndjson", SetToSeq(All))
 =============================================================================
